@@ -10,6 +10,7 @@ import (
 	"os"
 	"strconv"
 
+	"github.com/hashicorp/hcl-lang/decoder"
 	"github.com/hashicorp/hcl-lang/reference"
 	"github.com/hashicorp/hcl-lang/schema"
 	"github.com/hashicorp/hcl-lang/lang"
@@ -273,5 +274,64 @@ func debugMapIter(run *Run, replay string) {
 	f := parseFile("main.tf", []byte(src))
 	for n, a := range f.Body.(*hclsyntax.Body).Attributes {
 		fmt.Println(n, a.SrcRange, a.NameRange, a.Expr.Range())
+	}
+}
+
+func init() { props["debug-hv"] = debugHV }
+
+func debugHV(run *Run, replay string) {
+	for _, tc := range []struct {
+		t   cty.Type
+		src string
+	}{
+		{cty.Bool, "attr = true ? null : false\n"},
+		{cty.List(cty.Tuple([]cty.Type{cty.Bool})), "attr = [[true ? null : false]]\n"},
+		{cty.Tuple([]cty.Type{cty.Bool}), "attr = [true ? null : false]\n"},
+		{cty.List(cty.Bool), "attr = [true ? null : false]\n"},
+	} {
+		sch := &schema.BodySchema{Attributes: map[string]*schema.AttributeSchema{"attr": {IsOptional: true, Constraint: schema.AnyExpression{OfType: tc.t}}}}
+		w := newWorld()
+		pd := w.AddPath("p", sch, map[string]string{"main.tf": tc.src}, nil)
+		d, _ := w.Dec.Path(pd.Path)
+		tbl := lcTable([]byte(tc.src))
+		for off := 7; off < len(tc.src); off++ {
+			h, err := d.HoverAtPos(context.Background(), "main.tf", tbl[off])
+			if h != nil {
+				fmt.Printf("%q off %d: %q %v\n", tc.src, off, h.Content.Value, h.Range)
+			} else {
+				fmt.Printf("%q off %d: nil %v\n", tc.src, off, err)
+			}
+		}
+	}
+}
+
+func init() { props["debug-c06"] = debugC06 }
+
+func debugC06(run *Run, replay string) {
+	bi, si, off := 31, 3, 1832
+	rr := rand.New(rand.NewSource(subSeed(run.Res.Seed, bi)))
+	opts := ScenarioOpts{Histories: 3, Inject: bi%3 == 1, Gen: GenOpts{}}
+	if bi%6 == 1 {
+		opts.Gen.ManyAttrs = 110 + bi
+	}
+	scs := genScenarios(rr, opts)
+	sc := scs[si]
+	sc.W.Collect()
+	tbl := lcTable(sc.Src)
+	pos := tbl[off]
+	d, _ := sc.W.Dec.Path(sc.Main.Path)
+	decoder.VerifSetMaxCandidates(d, 3)
+	c, err := d.CompletionAtPos(context.Background(), sc.File, pos)
+	fmt.Println(pos, err, len(c.List))
+	for _, x := range c.List {
+		fmt.Printf("  %q kind=%d range=%v bytes %d-%d\n", x.Label, x.Kind, x.TextEdit.Range, x.TextEdit.Range.Start.Byte, x.TextEdit.Range.End.Byte)
+	}
+	lo := off - 40
+	fmt.Printf("%q | %q\n", sc.Src[lo:off], sc.Src[off:off+20])
+	body := sc.Main.Ctx.Files[sc.File].Body.(*hclsyntax.Body)
+	for n, a := range body.Attributes {
+		if a.SrcRange.Start.Byte <= off+10 && a.SrcRange.End.Byte >= off-10 {
+			fmt.Println(n, a.SrcRange, "name", a.NameRange, "eq", a.EqualsRange, "expr", a.Expr.Range(), fmt.Sprintf("%T", a.Expr))
+		}
 	}
 }
